@@ -399,13 +399,17 @@ class FitBase(FileIOMixin, object):
 
         :param bool update_asymmetric_errors: If the asymmetric parameter uncertainties should be updated as well.
         """
-        for _fpf, _pv, _pe in zip(
+        _fixed_parameters = self._fitter.fixed_parameters
+        for _fpf, _pn, _pv, _pe in zip(
             self._get_model_function_parameter_formatters(),
+            self.parameter_names,
             self.parameter_values,
             self.parameter_errors,
         ):
             _fpf.value = _pv
             _fpf.error = _pe
+            # the formatters belong to the model function object, which several fits may share
+            _fpf.fixed = _pn in _fixed_parameters
         if update_asymmetric_errors:
             self._check_dynamic_error_compatibility()
             _asymmetric_parameter_errors = self.asymmetric_parameter_errors
